@@ -4,7 +4,10 @@ import (
 	"fmt"
 	"os"
 	"reflect"
+	"runtime"
+	"runtime/debug"
 	"strconv"
+	"strings"
 	"time"
 )
 
@@ -24,8 +27,36 @@ type Explorer struct {
 	Points     int64 // scheduling decisions taken over all executions (transitions)
 	MaxPoints  int
 	Capped     bool
+	CapReason  string // "deadline" | "executions" | "memory"
 	Diverged   string
 	lvl2       int64
+	rssTick    int64
+}
+
+// maxRSS: a worker whose resident set grows beyond this stops exploring (Capped, reason "memory"): executions that
+// build real engines leak a little each (goroutines of closed databases, mapped files), a thorough run of 16 workers
+// must not exhaust the machine. VERIF_MAX_RSS_MB overrides (0 = no limit).
+var maxRSS = func() int64 {
+	if v := os.Getenv("VERIF_MAX_RSS_MB"); v != "" {
+		n, err := strconv.ParseInt(v, 10, 64)
+		if err == nil {
+			return n << 20
+		}
+	}
+	return 2000 << 20
+}()
+
+func rssBytes() int64 {
+	b, err := os.ReadFile("/proc/self/statm")
+	if err != nil {
+		return 0
+	}
+	f := strings.Fields(string(b))
+	if len(f) < 2 {
+		return 0
+	}
+	n, _ := strconv.ParseInt(f[1], 10, 64)
+	return n * int64(os.Getpagesize())
 }
 
 func (e *Explorer) preemptionsBefore(r *Result, i int) int {
@@ -77,9 +108,23 @@ func (e *Explorer) explore(prefix []int, level int, parent *Result) {
 	if e.Capped || e.Diverged != "" {
 		return
 	}
-	if (!e.Deadline.IsZero() && time.Now().After(e.Deadline)) || (e.MaxExec > 0 && e.Executions >= e.MaxExec) {
-		e.Capped = true
+	if !e.Deadline.IsZero() && time.Now().After(e.Deadline) {
+		e.Capped, e.CapReason = true, "deadline"
 		return
+	}
+	if e.MaxExec > 0 && e.Executions >= e.MaxExec {
+		e.Capped, e.CapReason = true, "executions"
+		return
+	}
+	if e.rssTick++; maxRSS > 0 && e.rssTick%64 == 0 {
+		if rss := rssBytes(); rss > maxRSS {
+			runtime.GC()
+			debug.FreeOSMemory()
+			if rss = rssBytes(); rss > maxRSS {
+				e.Capped, e.CapReason = true, "memory"
+				return
+			}
+		}
 	}
 	owned := true
 	if level == 2 {
